@@ -115,7 +115,10 @@ CHECKS = {'C01': {'level': 'exploration',
                  'replica 2 replays the whole serialized log at the end and is compared the same way; the number of commits through both paths must '
                  'agree. concurrent part (TestC06Sched): generated multi-block writer programs under the cooperative scheduler (random + exhaustive '
                  'schedules), recorded stream replayed in emission order, primary == replica. non-trivial = the history contains a multi-block '
-                 'commit, a merge or an offset reuse and >=1 commit was replayed; distinct = hash of trace/schedule',
+                 'commit, a merge or an offset reuse and >=1 commit was replayed; distinct = hash of trace/schedule | free-parallel part '
+                 '(TestC06Parallel): the writers of 2..4 different blocks commit 50..400 transactions each with real parallelism into a serialized '
+                 'commit.Log (memory or file); at quiescence the log must decode, with bounds-checked framing, into exactly the commits that were '
+                 'emitted per block, and a replica fed from it must equal the primary row for row',
          'assumptions': ['the replica has the same schema (columns created at the same history points) and the same index definitions',
                          'comparison happens when the primary is quiescent'],
          'tests': [{'run': '^TestC06$',
@@ -130,6 +133,10 @@ CHECKS = {'C01': {'level': 'exploration',
                     'timeout': {'quick': 900, 'thorough': 3400}},
                    {'run': '^TestSchedWritersExhaustive$',
                     'env': {'VERIF_PROP': 'C06', 'VERIF_SCHED_LIMIT': {'quick': 2500, 'thorough': 200000}, 'GOMAXPROCS': 1},
+                    'timeout': {'quick': 900, 'thorough': 3400}},
+                   {'run': '^TestC06Parallel$',
+                    'checks': {'quick': 100, 'thorough': 2000},
+                    'shards': {'quick': 1, 'thorough': 2},
                     'timeout': {'quick': 900, 'thorough': 3400}}]},
  'C07': {'level': 'exploration',
          'rule': 'model-based stateful histories over all column kinds (enum, bool, record, key, expire, late columns, custom merges), all Capacity '
